@@ -70,8 +70,8 @@ theorem erase_finishOp (s1 : CState) (r : Res) (x : Option Elem) (op : Op) (rest
     · simp only [h1, if_false]
       by_cases h2 : r = .ioerr
       · simp only [h2, if_true]
-        by_cases hc : s1.conc = true
-        · simp [hc, dropRejects]
+        by_cases hc : (s1.conc && !s1.reuse) = true
+        · simp only [hc, if_true]; simp [dropRejects]
         · simp only [hc, Bool.false_eq_true, if_false]
           exact dropRejects_dropWhile rest
       · simp only [h2, if_false]
@@ -358,10 +358,10 @@ theorem erase_step {s t : CState} {i : Nat} (he : ErrOK s) (hf : FinProg s) (h :
 
 /-- **every state reachable with rejected pushes in the program is, after erasure, reachable
     without them** — every program, schedule, fault, mode -/
-theorem reach_erase {conc : Bool} {c : Nat} {ac acl : Bool} {ops : List Op} {flt : Fault} {s : CState}
-    (h : Reach (sys conc c ac acl ops flt) s) :
-    Reach (sys conc c ac acl (dropRejects ops) flt) (erase s) := by
-  have : Reach (sys conc c ac acl (dropRejects ops) flt) (erase s) ∧ ErrOK s ∧ FinProg s := by
+theorem reach_erase {conc : Bool} {c : Nat} {ac acl : Bool} {ops : List Op} {flt : Fault} {reuse : Bool} {s : CState}
+    (h : Reach (sys conc c ac acl ops flt reuse) s) :
+    Reach (sys conc c ac acl (dropRejects ops) flt reuse) (erase s) := by
+  have : Reach (sys conc c ac acl (dropRejects ops) flt reuse) (erase s) ∧ ErrOK s ∧ FinProg s := by
     induction h with
     | init =>
       refine ⟨Reach.init, by simp [ErrOK, sys, initState], ?_⟩
